@@ -10,7 +10,7 @@
    the statement, witness included; _guarded = what holds outside the named class;
    _partial = a weaker statement than the property asks for, the missing part is said in the comment. *)
 From HV Require Import Lib.Base C07.Model C07.ServerProofs C07.ChainProofs C07.TermProofs
-  C07.GenuineProofs C07.InsecureProofs C07.WitnessProofs.
+  C07.GenuineProofs C07.InsecureProofs C07.NoInsecureProofs C07.WitnessProofs.
 Open Scope N_scope.
 
 (* ------------------------------------------------------------------ *)
@@ -162,9 +162,7 @@ Print Assumptions C07_insecure_only_if_ds_unusable_partial.
    signed and the upstream delivers no NSEC, no NSEC3 and no unsupported DS at all, dropping the
    single DS record from the (tld, DS) response (its RRSIG stays, so the answer section is not
    empty) makes the validator report the leaf.tld DS RRset — and everything below tld — Insecure
-   (confirmed on the real code: finding C07-K2-nonempty-answer-needs-no-denial; K5 and K6 are
-   two more ways to the same end that do use forged / foreign NSEC records).
-   The guarded counterpart (no Insecure outside K2, K3, K5, K6) is NOT proved. *)
+   (confirmed on the real code: finding C07-K2-nonempty-answer-needs-no-denial). *)
 Theorem C07_insecure_requires_denial_refuted :
   exists tbl anchors now q rc a au r,
     run_tbl tbl anchors now q = VOk rc a au /\ In (r, Insecure) a /\
@@ -175,6 +173,22 @@ Proof.
   repeat split; auto. exact w2_no_denial_material.
 Qed.
 Print Assumptions C07_insecure_requires_denial_refuted.
+
+(* That class is the only way: if the upstream delivers no NSEC, NSEC3 or unsupported-DS record and
+   every response to a DS query has an empty answer section or a DS record in it (i.e. outside
+   C07-K2), then no upstream, however it tampers, gets any record reported Insecure.
+   (When denial material IS around, findings K3 / K5 / K6 are further ways to an unjustified
+   Insecure; that part of the property is not proved — see 5. partial.) *)
+Theorem C07_insecure_requires_denial_guarded :
+  forall U anchors now maxd nsecv nsec3v sched,
+  (forall sec x, Delivered U sec -> In x sec -> denial_material x = false) ->
+  (forall q m, msg_of (U q) = Some m -> snd q = T_DS -> ans m = [] \/ existsb is_ds (ans m) = true) ->
+  forall q rc a au r,
+  (validate U anchors now maxd nsecv nsec3v sched q = VOk rc a au \/
+   exists p, validate U anchors now maxd nsecv nsec3v sched q = VNsec p rc a au) ->
+  ~ In (r, Insecure) (a ++ au).
+Proof. intros. eapply validate_never_insecure; eauto. Qed.
+Print Assumptions C07_insecure_requires_denial_guarded.
 
 (* ------------------------------------------------------------------ *)
 (* 6. Recursion depth                                                  *)
@@ -243,6 +257,17 @@ Example C07_insecure_example :
   exists rc a au, run_tbl w2_tbl [1] 1700000000 ([2; 1], T_DS) = VOk rc a au /\ In (w2_ds, Insecure) (a ++ au).
 Proof.
   destruct w2_insecure as (rc & a & au & Hv & Hin). exists rc, a, au. split; auto. apply in_or_app. now left.
+Qed.
+
+(* hypotheses of 5.-guarded: the W3 world (forged A under a foreign signer) delivers no denial
+   material and all its DS responses carry DS records; there the guarded theorem applies *)
+Example C07_insecure_guarded_example :
+  (forall sec x, Delivered (table_upstream w3_tbl) sec -> In x sec -> denial_material x = false) /\
+  (forall q m, msg_of (table_upstream w3_tbl q) = Some m -> snd q = T_DS -> ans m = [] \/ existsb is_ds (ans m) = true).
+Proof.
+  split.
+  - apply no_material_b. vm_compute. reflexivity.
+  - apply ds_answers_b. vm_compute. reflexivity.
 Qed.
 
 (* the input that used to panic is now answered *)
